@@ -14,7 +14,7 @@ composed along the recursion: on an admissible hierarchy every plain and every i
 Property theorems only; helper lemmas in `GMGProofs/Lemmas/Concrete*.lean`.
 -/
 namespace C10g
-open Cycle Concrete Stencil
+open MGCycle Concrete Stencil
 
 section AnyField
 variable {K : Type} [_root_.Field K]
